@@ -34,6 +34,9 @@ def shards(tier, seed):
         out.append({"id": "facade-sessions-" + t, "kind": "facade_sessions", "transport": t, "n": 120 if tier == "quick" else 2500})
         out.append({"id": "any-opcode-" + t, "kind": "any_opcode", "transport": t})
         if t != "iscsi_noraw":
+            for part in range(2 if tier == "quick" else 4):
+                out.append({"id": "condition-sweep-%s-%d" % (t, part), "kind": "condition_sweep", "transport": t, "part": part, "parts": 2 if tier == "quick" else 4, "thin": 0})
+        if t != "iscsi_noraw":
             out.append({"id": "sense-table-" + t, "kind": "sense_table", "transport": t, "keys": [0, 1, 2, 5, 6, 0xB] if tier == "quick" else list(range(16))})
     return out
 
@@ -327,6 +330,8 @@ def run(shard, ctx):
         run_facade_sessions(shard, ctx, env, rng)
     elif kind == "any_opcode":
         run_any_opcode(ctx, env, rng)
+    elif kind == "condition_sweep":
+        run_condition_sweep(shard, ctx, env, rng)
     elif kind == "sense_table":
         run_sense_table(shard, ctx, env, rng)
     # no binding call may have been skipped
@@ -524,6 +529,71 @@ def run_sense_table(shard, ctx, env, rng):
                     ctx.count("binding_calls")
                     ctx.count("assigned_codes_injected")
                     judge_call(ctx, env, "sense_table", 2, sense, raw, outcome, exc, cmd, {"key": key, "asc": asc, "ascq": ascq, "response_code": rc})
+
+
+def run_condition_sweep(shard, ctx, env, rng):
+    """every facade method x every condition initiators are known to act on x the forms sense data takes (fixed with and without
+    sense-key specific bytes naming CDB byte 0, 1, 2, 6; descriptor format with and without a sense-key specific descriptor, with an
+    ATA status return descriptor in front), with optional arguments at non-default values: a deterministic product, because a
+    reaction wired to one method, one triple and one field pointer is never met by drawing the three independently"""
+    import pyscsi.pyscsi.scsi_enum_command as E
+
+    from vmon import harness
+    from vmon.spec import dataout as DO, sense as ref
+
+    t = env.transport
+    methods = facade_calls(env, rng)
+    forms = [("fixed", None), ("fixed", (0xC0, 0, 0)), ("fixed", (0xC0, 0, 1)), ("fixed", (0xC8, 0, 2)), ("fixed", (0xC7, 0, 6)), ("fixed", (0x80, 0xFF, 0xFF)),
+             ("descriptor", None), ("descriptor", (0xC0, 0, 1)), ("descriptor-ata-first", None)]
+    triples = sorted(set(DRIVER_TRIPLES))
+    part, parts = shard.get("part", 0), shard.get("parts", 1)
+    n = 0
+    for mi, (label, c, a0) in enumerate(methods):
+        if mi % parts != part:
+            continue
+        setname = "sbc" if "sbc" in c.sets else c.sets[0]
+        for ti, (key, asc, ascq) in enumerate(triples):
+            for fi, (form, sks) in enumerate(forms):
+                if shard.get("thin") and (mi + ti + fi) % shard["thin"]:
+                    continue
+                env.dev.opcodes = getattr(E, setname)
+                s = harness.make_facade(env.dev)
+                a = dict(a0) if not c.custom else a0
+                if not c.custom and c.xfer != "ata":
+                    # optional arguments at a value of their own (a flag that is set is what a unit rejects)
+                    for name, (kind_, width, d) in c.args.items():
+                        if kind_ == "u" and d is not None and not isinstance(d, type) and width and width <= 8 and name in a and (mi + ti + fi) % 2:
+                            a[name] = 1 if width == 1 else (a[name] or 1)
+                if form == "fixed":
+                    sb = bytearray(ref.build(0x70 if (ti + fi) % 5 else 0x71, 1, key, asc, ascq, 18, info=n))
+                    if sks:
+                        sb[15], sb[16], sb[17] = sks
+                elif form == "descriptor":
+                    d = [bytes([0x02, 0x06, 0x00, 0x00, sks[0], sks[1], sks[2], 0x00])] if sks else [ref.descriptor("information", rng)]
+                    sb = bytearray(ref.build_with_descriptors(0x72 if (ti + fi) % 5 else 0x73, key, asc, ascq, d))
+                else:
+                    sb = bytearray(ref.build_with_descriptors(0x72, key, asc, ascq, [ref.descriptor("ata_status", rng), ref.descriptor("information", rng)]))
+                sense = type(ref.build(0x70, 1, 0, 0, 0, 18))(sb)
+                env.plan = [(2, sense)]
+                before = len(env.injected)
+                try:
+                    ret = harness.facade_call(c, s, DO.fresh(a) if c.custom else dict(a))
+                    outcome, exc = "returned", None
+                except Exception as e:  # noqa: BLE001
+                    ret, outcome, exc = None, "raised", e
+                reached = len(env.injected) - before
+                env.plan = []
+                n += 1
+                ctx.count("binding_calls")
+                ctx.count("condition_sweep_calls")
+                if reached == 0:
+                    continue  # refused before sending
+                wit = {"method": label, "condition": [key, asc, ascq], "form": form, "sense_key_specific": list(sks) if sks else None}
+                if reached != 1:
+                    ctx.fail("C07:%s.condition_sweep.binding_reached_%d_times" % (t, reached), "%s answered with CHECK CONDITION %x/%02x/%02x (%s) reached the binding %d times" % (label, key, asc, ascq, form, reached), wit)
+                    continue
+                judge_call(ctx, env, "condition_sweep", 2, sense, c.xfer == "ata", outcome, exc, ret, wit)
+        ctx.case((t, "condition-sweep", label), True)
 
 
 def run_facade_sessions(shard, ctx, env, rng):
